@@ -1068,7 +1068,7 @@ def bounds_program(rng, max_bits=10, tiny=False):
         widths = [r.choice([2, 3])] if nb == 1 else [2, r.choice([1, 2])]
         for i, w in enumerate(widths):
             fields.append({"n": "f%d" % i, "k": "int", "w": w, "s": r.random() < 0.35, "r": True})
-        if r.random() < 0.4:
+        if r.random() < 0.6:
             fields.append(g.int_field("k0", False, w=3, signed=r.random() < 0.3))
     elif r.random() < 0.5:
         # fewer but wider fields: room for several disjoint ranges
@@ -1095,17 +1095,28 @@ def bounds_program(rng, max_bits=10, tiny=False):
         lo, hi = rng_of(fd)
         c = r.random()
         op = r.choice(["<", "<=", ">", ">=", "==", "!=", "<", ">"])
-        if c < 0.28:
+        if c < 0.24:
             return ["e", ["b", op, ["f", list(p)], ["c", r.randint(lo - 1, hi + 1)]]]
-        if c < 0.40 and nons:
-            same = [(q, qd) for q, qd in nons if qd["s"] == fd["s"]]
-            if same:
-                q, qd = r.choice(same)
-                rhs = ["f", list(q)]
-                if r.random() < 0.5:
+        if c < 0.28:
+            # a sized literal of the OTHER signedness: the solver compares unsigned
+            w = fd["w"]
+            lit = ["u", r.randint(0, (1 << w) - 1), w] if fd["s"] else ["s", r.randint(-(1 << (w - 1)), (1 << (w - 1)) - 1), w]
+            return ["e", ["b", op, ["f", list(p)], lit]]
+        if c < 0.46 and nons:
+            q, qd = r.choice(nons)
+            rhs = ["f", list(q)]
+            if qd["s"] == fd["s"]:
+                cc = r.random()
+                if cc < 0.2:
                     rhs = ["b", r.choice(["+", "-"]), rhs, ["c", r.randint(0, 2)]]
-                return ["e", ["b", op, ["f", list(p)], rhs]]
-        if c < 0.52 and len(rands) >= 2:
+                elif cc < 0.7:
+                    # a literal of the field's own width: the comparison is as wide as its operands only, so the
+                    # sum / difference wraps where unbounded integers do not
+                    v = r.randint(0, (1 << (qd["w"] - 1)) - 1) if qd["s"] else r.randint((1 << (qd["w"] - 1)) if r.random() < 0.5 else 0, (1 << qd["w"]) - 1)
+                    rhs = ["b", r.choice(["+", "-"]), rhs, (["s", v, qd["w"]] if qd["s"] else ["u", v, qd["w"]])]
+            # (a non-random field of the other signedness is compared as it is: the solver compares unsigned)
+            return ["e", ["b", op, ["f", list(p)], rhs]]
+        if c < 0.57 and len(rands) >= 2:
             same = [(q, qd) for q, qd in rands if qd["s"] == fd["s"] and q != p]
             if same:
                 q, qd = r.choice(same)
